@@ -253,6 +253,41 @@ def compileRepeated {ν : Type} [DecidableEq ν] (le : ν → ν → Bool) (lib 
     let r := compile le lib cache prog
     r.1 :: compileRepeated le lib prog k r.2
 
+/-- One use of a `Compiler`: a compilation that succeeds, or one that FAILS
+after the imports were initialised and `callsDone` function instances were
+expanded (undefined name in main, error inside an imported function, ...).  A
+failing compilation returns early and leaves in `c.packages` whatever state it
+had reached. -/
+inductive Event (ν : Type) where
+  | good (p : Prog ν)
+  | failing (p : Prog ν) (callsDone : Nat)
+
+/-- The package table after an event, for a given `compile`. -/
+def stepWith {ν : Type} (comp : Cache ν → Prog ν → Output ν × Cache ν) (c : Cache ν) : Event ν → Cache ν
+  | .good p => (comp c p).2
+  | .failing p n => (comp c { p with calls := p.calls.take n }).2
+
+def runHistoryWith {ν : Type} (comp : Cache ν → Prog ν → Output ν × Cache ν) (c : Cache ν) (h : List (Event ν)) : Cache ν :=
+  h.foldl (stepWith comp) c
+
+/-- The history of a `Compiler` under the code as it is. -/
+def runHistory {ν : Type} [DecidableEq ν] (le : ν → ν → Bool) (lib : List (Pkg ν)) (c : Cache ν) (h : List (Event ν)) : Cache ν :=
+  runHistoryWith (compile le lib) c h
+
+/-- HYPOTHETICAL variant (not the code): the package table is dropped only
+AFTER a successful code generation ("release the ASTs before the circuit is
+built") instead of at the start.  A successful compilation then leaves an empty
+table, a failing one leaves its state behind, and the next compilation starts
+from it. -/
+def compileResetOnSuccess {ν : Type} [DecidableEq ν] (le : ν → ν → Bool) (lib : List (Pkg ν)) (cache : Cache ν) (prog : Prog ν) :
+    Output ν × Cache ν :=
+  ((compileFrom (initPkg le) lib cache prog).1, Cache.empty)
+
+/-- … and what a FAILING compilation leaves behind under that variant. -/
+def stepResetOnSuccess {ν : Type} [DecidableEq ν] (le : ν → ν → Bool) (lib : List (Pkg ν)) (c : Cache ν) : Event ν → Cache ν
+  | .good p => (compileResetOnSuccess le lib c p).2
+  | .failing p n => (compileFrom (initPkg le) lib c { p with calls := p.calls.take n }).2
+
 /-! ## 7. Compiler.parse / parsePkg: the package table is keyed by alias -/
 
 /-- compiler/compiler.go `parse` + `parsePkg` (since 6aa1568):
